@@ -118,8 +118,8 @@ def get_value_source(
         return (ValueSource.PROVIDED, provided_values[param])
 
     # 3. Bound value (from graph.bind()) - check both graph and GraphNode
-    if param in graph.inputs.bound:
-        return (ValueSource.BOUND, graph.inputs.bound[param])
+    if param in graph.bound_values:
+        return (ValueSource.BOUND, graph.bound_values[param])
 
     # 3b. For GraphNode: check if inner graph has it bound
     if isinstance(node, GraphNode):
@@ -377,7 +377,7 @@ def _has_input(param: str, node: HyperNode, graph: Graph, state: GraphState) -> 
         return True
 
     # Bound value in graph
-    if param in graph.inputs.bound:
+    if param in graph.bound_values:
         return True
 
     # Node has default for this parameter
